@@ -106,6 +106,10 @@ def run(facts, R):
             cv = Sym(c).local(0)
             txt = render_n(cv)
             R.check("ne(" in txt and "arg1.key" in txt and "arg2" in txt, "alias-pairing", c.path, "retain predicate is k != key", "retain predicate: %s" % txt, c.span, txt[:80])
+        other = [st.get("span") for x, y, st in ab.assigns() if st["place"]["l"] == 0 and not st["place"]["p"] and const_val(s.rvalue(st["rv"])) not in (0, 1)]
+        other += [t.get("span") for x, t in ab.calls() if t["dest"]["l"] == 0 and not t["dest"]["p"]]
+        R.check(not other, "alias-pairing", ab.path, "result is a literal true/false on every row",
+                "alias() computes its result at %s instead of returning a literal per row: the true/false rows above do not cover it" % other, ab.span)
         # on the displaced row every path insert->push goes through the retain or the previous owner has no list
         falses = [(x, y, st) for x, y, st in ab.assigns() if st["place"]["l"] == 0 and not st["place"]["p"] and const_val(s.rvalue(st["rv"])) == 0]
         for x, y, st in falses:
